@@ -252,6 +252,8 @@ type Exec struct {
 	sconsts    []int64
 	retMain    map[int64]bool
 	retSub     map[int64]bool
+	simVariant string
+	simLimit   int64
 }
 
 // SpecHook lets a proof driver add hypotheses when the path reads input bytes or jumps.
